@@ -16,6 +16,14 @@ Every theorem of Props/C16.lean and Props/C16Conn.lean is stated for ALL states,
 import PrimaiteModel.Props.C16Conn
 namespace Primaite.Session
 
+/-- what the rig's abstraction of the routers (`Medium` in harness/rigs/session.py) relies on: a router that is not ON drops every
+frame first thing; ARP frames are exempt from the ACL, so a DENY rule for ARP closes no direction (the rig checks both on real routers) -/
+theorem C16_gen_router_medium :
+    Gen.Session.routerOffDropsEveryFrame = true ∧
+    Gen.Session.routerSubjectToAcl =
+      ["frame.ip.protocol == 'udp' and frame.is_arp and isinstance(frame.payload, ARPPacket) -> return False", "return True"] := by
+  decide
+
 /-! ### the outcomes of a remote login over a path with two directions -/
 
 /-- **C16, transport (login).** A remote login of `x` towards `y` has exactly three outcomes:
